@@ -1,5 +1,8 @@
 import ZenonVerif.Model.GoSem
 import ZenonVerif.Model.Num
+import ZenonVerif.Model.Rewards
+import ZenonVerif.Model.Consensus
+import ZenonVerif.Model.Pool
 /-
 Lemmas about the Go semantics module (Model/GoSem.lean) used by Props/Translated.lean. Core only.
 -/
@@ -59,5 +62,95 @@ theorem zero8_eq : zero8 = leBytes 8 0 := by decide
 
 theorem toInt_eq (v : BitVec 64) : v.toInt = if v.toNat < 2 ^ 63 then (v.toNat : Int) else (v.toNat : Int) - 2 ^ 64 := by
   rw [BitVec.toInt_eq_toNat_cond]; split <;> split <;> omega
+
+theorem tdiv_nat (n d : Nat) : Int.tdiv (n : Int) (d : Int) = ((n / d : Nat) : Int) := (Int.ofNat_tdiv n d).symm
+
+theorem toInt_sub_wrap (a b : BitVec 64) : (a - b).toInt = Rewards.wrap64 (a.toInt - b.toInt) := by
+  rw [BitVec.toInt_sub, Int.bmod_def]; unfold Rewards.wrap64; simp only [two63, two64]; split <;> omega
+
+theorem toInt_mul_wrap (a b : BitVec 64) : (a * b).toInt = Rewards.mul64 a.toInt b.toInt := by
+  rw [BitVec.toInt_mul, Int.bmod_def]; unfold Rewards.mul64 Rewards.wrap64; simp only [two63, two64]
+  generalize a.toInt * b.toInt = p
+  split <;> omega
+
+theorem bmod_wrap (x : Int) : x.bmod (2 ^ 64) = Rewards.wrap64 x := by
+  rw [Int.bmod_def]; unfold Rewards.wrap64; simp only [two63, two64]; split <;> omega
+theorem toInt_add_wrap (a b : BitVec 64) : (a + b).toInt = Rewards.wrap64 (a.toInt + b.toInt) := by
+  rw [BitVec.toInt_add, bmod_wrap]
+theorem toInt_sdiv_wrap (a b : BitVec 64) : (BitVec.sdiv a b).toInt = Rewards.wrap64 (Int.tdiv a.toInt b.toInt) := by
+  rw [BitVec.toInt_sdiv, bmod_wrap]
+theorem consensus_wrap64_eq (x : Int) : Consensus.wrap64 x = Rewards.wrap64 x := by
+  unfold Consensus.wrap64 Consensus.toInt64 Rewards.wrap64; simp only [Consensus.two64i, two63, two64]
+  by_cases h : (x % 18446744073709551616).toNat % 18446744073709551616 < 9223372036854775808 <;> simp only [h, if_true, if_false] <;> omega
+theorem toInt64_toNat (v : BitVec 64) : Consensus.toInt64 v.toNat = v.toInt := by
+  have := v.isLt
+  unfold Consensus.toInt64; rw [toInt_eq]; simp only [Consensus.two64i, two63, two64]
+  by_cases h : v.toNat % 18446744073709551616 < 9223372036854775808 <;> by_cases h2 : v.toNat < 2 ^ 63 <;> simp only [h, h2, if_true, if_false] <;> omega
+theorem toInt_zext32 (v : BitVec 32) : (BitVec.setWidth 64 v).toInt = (v.toNat : Int) := by
+  have := v.isLt
+  rw [toInt_eq]; simp only [BitVec.toNat_setWidth]; split <;> omega
+
+/-! ### loops over a slice: `accountPool.filterBlocksToCommit` -/
+
+/-- the counter values `o, o+1, …, o+n-1` of an upward loop starting at 0, from offset `o` -/
+def idxFrom (o n : Nat) : List (BitVec 64) := (List.range n).map (fun k => 0#64 + BitVec.ofNat 64 (o + k))
+
+theorem idxFrom_succ (o n : Nat) : idxFrom o (n + 1) = (0#64 + BitVec.ofNat 64 o) :: idxFrom (o + 1) n := by
+  unfold idxFrom
+  rw [List.range_succ_eq_map]
+  simp only [List.map_cons, List.map_map, Nat.add_zero, List.cons.injEq, true_and]
+  apply List.map_congr_left
+  intro k _
+  simp only [Function.comp, Nat.succ_eq_add_one]
+  congr 2; omega
+
+theorem upS_len_eq {α : Type} (l : List α) (h : l.length < 2 ^ 63) : upS 0#64 (len l) = idxFrom 0 l.length := by
+  unfold upS idxFrom len
+  have h0 : (0#64).toInt = 0 := by decide
+  have hl : (BitVec.ofNat 64 l.length).toInt = (l.length : Int) := by
+    rw [toInt_eq, BitVec.toNat_ofNat]
+    have : l.length % 2 ^ 64 = l.length := Nat.mod_eq_of_lt (by omega)
+    rw [this]; split <;> omega
+  rw [h0, hl]
+  simp
+
+abbrev LL := List (BitVec 64) × List (BitVec 64)
+
+theorem filterLoop_spec (isCS : BitVec 64 → Bool) (max : Nat) (blocks : List (BitVec 64))
+    (body : BitVec 64 → LL → Step LL (List (BitVec 64)))
+    (hbody : ∀ (k : Nat) (b : BitVec 64) (batch tc : List (BitVec 64)), blocks[k]? = some b → batch.length + tc.length ≤ k →
+      body (0#64 + BitVec.ofNat 64 k) (batch, tc) =
+        if isCS b then .next (batch ++ [b], tc)
+        else if tc.length + (batch ++ [b]).length > max then .brk (batch ++ [b], tc)
+        else .next ([], tc ++ (batch ++ [b]))) :
+    ∀ (rest pre batch tc : List (BitVec 64)), blocks = pre ++ rest → batch.length + tc.length ≤ pre.length →
+      ∃ b', forIn (idxFrom pre.length rest.length) (batch, tc) body = .next (b', Pool.filterGo isCS max rest tc batch) ∨
+            forIn (idxFrom pre.length rest.length) (batch, tc) body = .brk (b', Pool.filterGo isCS max rest tc batch) := by
+  intro rest
+  induction rest with
+  | nil =>
+    intro pre batch tc _ _
+    exact ⟨batch, Or.inl (by simp [idxFrom, forIn, Pool.filterGo])⟩
+  | cons b rest ih =>
+    intro pre batch tc hsplit hinv
+    have hk : blocks[pre.length]? = some b := by rw [hsplit]; simp
+    have hb := hbody pre.length b batch tc hk hinv
+    have hsplit' : blocks = (pre ++ [b]) ++ rest := by rw [hsplit]; simp
+    have hlen' : (pre ++ [b]).length = pre.length + 1 := by simp
+    rw [List.length_cons, idxFrom_succ]
+    simp only [forIn, hb, Pool.filterGo]
+    by_cases h1 : isCS b = true
+    · simp only [h1, if_true]
+      have := ih (pre ++ [b]) (batch ++ [b]) tc hsplit' (by simp; omega)
+      rw [hlen'] at this
+      exact this
+    · simp only [h1, Bool.false_eq_true, if_false]
+      by_cases h2 : tc.length + (batch ++ [b]).length > max
+      · simp only [h2, if_true]
+        exact ⟨batch ++ [b], Or.inr rfl⟩
+      · simp only [h2, if_false]
+        have := ih (pre ++ [b]) [] (tc ++ (batch ++ [b])) hsplit' (by simp; omega)
+        rw [hlen'] at this
+        exact this
 
 end ZV.Go
